@@ -1,7 +1,542 @@
 /-
-Helper lemmas (NpyGrammar).
+Helper lemmas (NpyGrammar): the nom-combinator model of the npy header dictionary (`SfsModel/Model/Npy.lean`)
+run on rendered spellings. The renderers here (`entryG`, `tupleG`, `entriesG`, `renderG`) mirror the ones of
+`Props/C15Grammar.lean` field by field (there: `Spelling.entry`, …), so that the glue there is `rfl`.
 -/
 import SfsModel.Lemmas.Bytes
+import Mathlib.Data.List.Permutation
 namespace Sfs
+
+/-! ## spaces and "does not start with" -/
+
+def spc (n : Nat) : List Char := List.replicate n ' '
+
+/-- the predicate of `space0`. -/
+def wsB (c : Char) : Bool := decide (c = ' ' ∨ c = '\t')
+
+/-- the list does not start with a character satisfying `p` (the side condition of `takeWhile_append_stop`). -/
+def HeadNot (p : Char → Bool) (l : List Char) : Prop := ∀ c, l.head? = some c → p c = false
+
+theorem headNot_nil (p : Char → Bool) : HeadNot p [] := by simp [HeadNot]
+
+theorem headNot_cons (p : Char → Bool) (c : Char) (l : List Char) : HeadNot p (c :: l) ↔ p c = false := by
+  simp [HeadNot]
+
+theorem headNot_cons_append (p : Char → Bool) (c : Char) (l r : List Char) (h : p c = false) :
+    HeadNot p (c :: l ++ r) := by
+  simp [HeadNot, h]
+
+theorem headNot_spc_append (p : Char → Bool) (n : Nat) (l : List Char) (h : p ' ' = false) (hl : HeadNot p l) :
+    HeadNot p (spc n ++ l) := by
+  cases n with
+  | zero => simpa [spc] using hl
+  | succ n => simp [spc, List.replicate_succ, HeadNot, h]
+
+theorem spc_append_spc (a b : Nat) (r : List Char) : spc a ++ (spc b ++ r) = spc (a + b) ++ r := by
+  rw [← List.append_assoc]; simp only [spc, List.replicate_append_replicate]
+
+theorem spc_zero_append (r : List Char) : spc 0 ++ r = r := rfl
+
+/-! ## `space0`, `tag`, separators -/
+
+theorem pSpace0_eq (inp : List Char) : pSpace0 inp = some ((), inp.dropWhile wsB) := rfl
+
+theorem pSpace0_spc (n : Nat) (rest : List Char) (h : HeadNot wsB rest) :
+    pSpace0 (spc n ++ rest) = some ((), rest) := by
+  rw [pSpace0_eq, (takeWhile_append_stop wsB (spc n) rest ?_ h).2]
+  intro x hx
+  obtain ⟨_, rfl⟩ := List.mem_replicate.mp hx
+  rfl
+
+theorem pSpace0_id (rest : List Char) (h : HeadNot wsB rest) : pSpace0 rest = some ((), rest) :=
+  pSpace0_spc 0 rest h
+
+theorem pTag_one_hit (c : Char) (r : List Char) : pTag [c] (c :: r) = some ((), r) := by
+  simp [pTag, List.isPrefixOf]
+
+theorem pTag_one_miss (c c' : Char) (r : List Char) (h : c' ≠ c) : pTag [c] (c' :: r) = none := by
+  simp [pTag, List.isPrefixOf, Ne.symm h]
+
+theorem pWsSep_spc (c : Char) (hc : wsB c = false) (a b : Nat) (rest : List Char) (h : HeadNot wsB rest) :
+    pWsSep [c] (spc a ++ c :: (spc b ++ rest)) = some ((), rest) := by
+  unfold pWsSep
+  rw [pSpace0_spc a _ ((headNot_cons _ _ _).mpr hc)]
+  simp only [pTag_one_hit, pSpace0_spc b rest h]
+
+theorem pWsSep_spc2 (c : Char) (hc : wsB c = false) (a b b' : Nat) (rest : List Char) (h : HeadNot wsB rest) :
+    pWsSep [c] (spc a ++ c :: (spc b ++ (spc b' ++ rest))) = some ((), rest) := by
+  rw [spc_append_spc]; exact pWsSep_spc c hc a _ rest h
+
+theorem pWsSep_miss (c c' : Char) (hc' : wsB c' = false) (hne : c' ≠ c) (n : Nat) (r : List Char) :
+    pWsSep [c] (spc n ++ c' :: r) = none := by
+  unfold pWsSep
+  rw [pSpace0_spc n _ ((headNot_cons _ _ _).mpr hc')]
+  simp only [pTag_one_miss c c' r hne]
+
+/-! ## quoted strings -/
+
+theorem pQuote_hit (q : Char) (body rest : List Char) (hne : body ≠ []) (hfree : ∀ c ∈ body, c ≠ q) :
+    pQuote q (q :: (body ++ q :: rest)) = some (body, rest) := by
+  have h := takeWhile_append_stop (fun c => decide (c ≠ q)) body (q :: rest)
+    (fun x hx => by simpa using hfree x hx) (fun x hx => by simp at hx; simp [hx])
+  have hb : body.isEmpty = false := by cases body with
+    | nil => exact absurd rfl hne
+    | cons _ _ => rfl
+  simp only [pQuote, if_true, h.1, h.2, hb, Bool.false_eq_true, if_false]
+
+theorem pQuote_miss (q c : Char) (r : List Char) (h : c ≠ q) : pQuote q (c :: r) = none := by
+  simp [pQuote, h]
+
+theorem pString_hit (q : Char) (hq : q = '\'' ∨ q = '"') (body rest : List Char) (hne : body ≠ [])
+    (hfree : ∀ c ∈ body, c ≠ q) : pString (q :: (body ++ q :: rest)) = some (body, rest) := by
+  unfold pString
+  rcases hq with rfl | rfl
+  · rw [pQuote_hit _ body rest hne hfree]
+  · rw [pQuote_miss '\'' '"' _ (by decide), pQuote_hit _ body rest hne hfree]
+
+theorem pString_miss (c : Char) (r : List Char) (h1 : c ≠ '\'') (h2 : c ≠ '"') : pString (c :: r) = none := by
+  unfold pString
+  rw [pQuote_miss _ _ _ h1, pQuote_miss _ _ _ h2]
+
+theorem pTargetString_hit (q : Char) (hq : q = '\'' ∨ q = '"') (key rest : List Char) (hne : key ≠ [])
+    (hfree : ∀ c ∈ key, c ≠ q) : pTargetString key (q :: (key ++ q :: rest)) = some ((), rest) := by
+  unfold pTargetString
+  rw [pString_hit q hq key rest hne hfree]
+  simp
+
+theorem pTargetString_miss (q : Char) (hq : q = '\'' ∨ q = '"') (key key' rest : List Char) (hne : key ≠ [])
+    (hfree : ∀ c ∈ key, c ≠ q) (hk : key ≠ key') : pTargetString key' (q :: (key ++ q :: rest)) = none := by
+  unfold pTargetString
+  rw [pString_hit q hq key rest hne hfree]
+  simp [hk]
+
+theorem pTargetString_nostring (key : List Char) (c : Char) (r : List Char) (h1 : c ≠ '\'') (h2 : c ≠ '"') :
+    pTargetString key (c :: r) = none := by
+  unfold pTargetString
+  rw [pString_miss c r h1 h2]
+
+/-! ## descr values -/
+
+theorem pType_name (t : NpyTy) (r : List Char) : pType (t.name ++ r) = some (t, r) := by
+  cases t <;> rfl
+
+theorem pType_eq_some (inp s : List Char) (t : NpyTy) : pType inp = some (t, s) ↔ inp = t.name ++ s := by
+  constructor
+  · intro h
+    unfold pType at h
+    split at h <;> first
+      | (simp only [Option.some.injEq, Prod.mk.injEq] at h; obtain ⟨rfl, rfl⟩ := h; rfl)
+      | cases h
+  · rintro rfl; exact pType_name t s
+
+/-- the byte-order characters and what they mean. -/
+def EndianOf (c : Char) (e : Endian) : Prop := (c = '<' ∨ c = '|') ∧ e = .little ∨ c = '>' ∧ e = .big
+
+theorem pEndian_eq_some (inp s : List Char) (e : Endian) :
+    pEndian inp = some (e, s) ↔ ∃ c, inp = c :: s ∧ EndianOf c e := by
+  unfold EndianOf
+  constructor
+  · intro h
+    unfold pEndian at h
+    split at h <;> simp_all
+  · rintro ⟨c, rfl, (⟨rfl | rfl, rfl⟩ | ⟨rfl, rfl⟩)⟩ <;> rfl
+
+/-- the part of `pDescrValue` after the string has been cut out. -/
+def descrOfString (s : List Char) : Option (Endian × NpyTy) :=
+  match pEndian s with
+  | some (e, s1) => match pType s1 with
+    | some (t, []) => some (e, t)
+    | _ => none
+  | none => none
+
+theorem descrOfString_eq_some (s : List Char) (e : Endian) (t : NpyTy) :
+    descrOfString s = some (e, t) ↔ ∃ c, s = c :: t.name ∧ EndianOf c e := by
+  unfold descrOfString
+  constructor
+  · intro h
+    split at h
+    · rename_i e' s1 hE
+      split at h
+      · rename_i t' hT
+        simp only [Option.some.injEq, Prod.mk.injEq] at h
+        obtain ⟨rfl, rfl⟩ := h
+        obtain ⟨c, rfl, hc⟩ := (pEndian_eq_some _ _ _).mp hE
+        have := (pType_eq_some _ _ _).mp hT
+        exact ⟨c, by simpa using this, hc⟩
+      · cases h
+    · cases h
+  · rintro ⟨c, rfl, hc⟩
+    have hE : pEndian (c :: t.name) = some (e, t.name) := (pEndian_eq_some _ _ _).mpr ⟨c, rfl, hc⟩
+    have hT : pType t.name = some (t, []) := by simpa using pType_name t []
+    simp only [hE, hT]
+
+theorem pDescrValue_string (q : Char) (hq : q = '\'' ∨ q = '"') (body rest : List Char) (hne : body ≠ [])
+    (hfree : ∀ c ∈ body, c ≠ q) :
+    pDescrValue (q :: (body ++ q :: rest)) = (descrOfString body).map (fun x => (x, rest)) := by
+  unfold pDescrValue descrOfString
+  rw [pString_hit q hq body rest hne hfree]
+  simp only
+  split
+  · split <;> simp_all
+  · simp_all
+
+/-- general form of `descr_accepted_iff` (either quote character). -/
+theorem pDescrValue_eq_some_iff (q : Char) (hq : q = '\'' ∨ q = '"') (body r : List Char) (e : Endian) (t : NpyTy)
+    (hne : body ≠ []) (hfree : ∀ c ∈ body, c ≠ q) :
+    pDescrValue (q :: (body ++ q :: r)) = some ((e, t), r) ↔ ∃ c, body = c :: t.name ∧ EndianOf c e := by
+  rw [pDescrValue_string q hq body r hne hfree, ← descrOfString_eq_some]
+  cases descrOfString body <;> simp
+
+theorem name_free (q : Char) (hq : q = '\'' ∨ q = '"') (c : Char) (e : Endian) (t : NpyTy) (hc : EndianOf c e) :
+    ∀ x ∈ c :: t.name, x ≠ q := by
+  have hcq : c ≠ q := by
+    rcases hq with rfl | rfl <;> rcases hc with ⟨rfl | rfl, _⟩ | ⟨rfl, _⟩ <;> decide
+  have ht : ∀ x ∈ t.name, x ≠ q := by
+    rcases hq with rfl | rfl <;> cases t <;> decide
+  intro x hx
+  rcases List.mem_cons.mp hx with rfl | hx
+  · exact hcq
+  · exact ht x hx
+
+theorem pDescrValue_hit (q : Char) (hq : q = '\'' ∨ q = '"') (c : Char) (e : Endian) (t : NpyTy)
+    (hc : EndianOf c e) (rest : List Char) :
+    pDescrValue (q :: (c :: t.name ++ q :: rest)) = some ((e, t), rest) :=
+  (pDescrValue_eq_some_iff q hq (c :: t.name) rest e t (by simp) (name_free q hq c e t hc)).mpr ⟨c, rfl, hc⟩
+
+/-! ## booleans -/
+
+theorem pBool_ite (b : Bool) (r : List Char) :
+    pBool ((if b then "True".toList else "False".toList) ++ r) = some (b, r) := by
+  cases b <;> simp [pBool, pTag, List.isPrefixOf]
+
+/-! ## separated lists -/
+
+def joinG (sep : List Char) : List (List Char) → List Char
+  | [] => []
+  | [a] => a
+  | a :: rest => a ++ sep ++ joinG sep rest
+
+theorem joinG_cons_cons (sep a b : List Char) (l : List (List Char)) :
+    joinG sep (a :: b :: l) = a ++ sep ++ joinG sep (b :: l) := rfl
+
+theorem joinNats_eq_joinG (sep : List Char) : ∀ l : List Nat, joinNats sep l = joinG sep (l.map showNat)
+  | [] => rfl
+  | [_] => rfl
+  | a :: b :: l => by
+    have ih := joinNats_eq_joinG sep (b :: l)
+    simp only [List.map_cons] at ih
+    simp only [joinNats, List.map_cons, joinG_cons_cons, ih]
+
+theorem joinG_head (sep x : List Char) (l : List (List Char)) (tl : List Char) :
+    ∃ r, joinG sep (x :: l) ++ tl = x ++ r := by
+  cases l with
+  | nil => exact ⟨tl, rfl⟩
+  | cons y l => exact ⟨sep ++ joinG sep (y :: l) ++ tl, by simp [joinG_cons_cons]⟩
+
+theorem joinG_length (sep : List Char) : ∀ l : List (List Char), (∀ x ∈ l, x ≠ []) → l.length ≤ (joinG sep l).length
+  | [], _ => by simp
+  | [a], h => by
+    have : a ≠ [] := h a (by simp)
+    have := List.length_pos_iff.mpr this
+    simp only [joinG, List.length_cons, List.length_nil]
+    omega
+  | a :: b :: l, h => by
+    have ha : a ≠ [] := h a (by simp)
+    have := List.length_pos_iff.mpr ha
+    have ih := joinG_length sep (b :: l) (fun x hx => h x (by simp [hx]))
+    simp only [joinG_cons_cons, List.length_append, List.length_cons] at ih ⊢
+    omega
+
+theorem sepList_none {α} (sep : P Unit) (f : P α) (inp : List Char) (h : f inp = none) :
+    ∀ fuel, pSepList1Opt sep f fuel inp = none
+  | 0 => rfl
+  | fuel + 1 => by simp [pSepList1Opt, h]
+
+/-- `separated_list1(sep, f)` + `opt(sep)` on a rendered list: `cm` is the spelled separator, `tl` what follows the
+    last item, `out` what is left (either `tl` itself or `tl` without the optional trailing separator). -/
+theorem sepList_join {α} (sep : P Unit) (f : P α) (cm tl out : List Char)
+    (hsep : ∀ r, HeadNot wsB r → sep (cm ++ r) = some ((), r))
+    (hcm : ∀ r, HeadNot Char.isDigit (cm ++ r))
+    (htl : HeadNot Char.isDigit tl)
+    (hterm : (sep tl = none ∧ out = tl) ∨ (sep tl = some ((), out) ∧ f out = none)) :
+    ∀ (items : List (List Char × α)) (fuel : Nat), items ≠ [] → items.length < fuel →
+      (∀ p ∈ items, (∀ r, HeadNot wsB (p.1 ++ r)) ∧ ∀ r, HeadNot Char.isDigit r → f (p.1 ++ r) = some (p.2, r)) →
+      pSepList1Opt sep f fuel (joinG cm (items.map Prod.fst) ++ tl) = some (items.map Prod.snd, out)
+  | [], _, h, _, _ => absurd rfl h
+  | [p], fuel, _, hfuel, hp => by
+    obtain ⟨k, rfl⟩ : ∃ k, fuel = k + 1 := ⟨fuel - 1, by simp at hfuel; omega⟩
+    have hf := (hp p (by simp)).2 tl htl
+    simp only [List.map_cons, List.map_nil, joinG, pSepList1Opt, hf]
+    rcases hterm with ⟨h1, rfl⟩ | ⟨h1, h2⟩
+    · simp only [h1]
+    · simp only [h1, sepList_none sep f out h2 k]
+  | p :: p' :: more, fuel, _, hfuel, hp => by
+    obtain ⟨k, rfl⟩ : ∃ k, fuel = k + 1 := ⟨fuel - 1, by simp at hfuel; omega⟩
+    have ih := sepList_join sep f cm tl out hsep hcm htl hterm (p' :: more) k (by simp)
+      (by simp at hfuel ⊢; omega) (fun x hx => hp x (by simp [hx]))
+    have hw : HeadNot wsB (joinG cm ((p' :: more).map Prod.fst) ++ tl) := by
+      obtain ⟨r, hr⟩ := joinG_head cm p'.1 (more.map Prod.fst) tl
+      rw [List.map_cons, hr]
+      exact (hp p' (by simp)).1 r
+    have hf := (hp p (by simp)).2 _ (hcm (joinG cm ((p' :: more).map Prod.fst) ++ tl))
+    have hs := hsep _ hw
+    have e : joinG cm ((p :: p' :: more).map Prod.fst) ++ tl
+        = p.1 ++ (cm ++ (joinG cm ((p' :: more).map Prod.fst) ++ tl)) := by
+      simp [joinG_cons_cons]
+    rw [e]
+    unfold pSepList1Opt
+    simp only [List.map_cons] at ih hf hs ⊢
+    simp only [hf, hs, ih]
+
+/-! ## the spelled separator, tuples -/
+
+def commaG (a b : Nat) : List Char := spc a ++ [','] ++ spc b
+
+theorem commaG_append (a b : Nat) (r : List Char) : commaG a b ++ r = spc a ++ ',' :: (spc b ++ r) := by
+  simp [commaG]
+
+theorem commaG_sep (a b : Nat) (r : List Char) (h : HeadNot wsB r) :
+    pWsSep [','] (commaG a b ++ r) = some ((), r) := by
+  rw [commaG_append]; exact pWsSep_spc ',' (by decide) a b r h
+
+theorem commaG_nondigit (a b : Nat) (r : List Char) : HeadNot Char.isDigit (commaG a b ++ r) := by
+  rw [commaG_append]
+  exact headNot_spc_append _ _ _ (by decide) ((headNot_cons _ _ _).mpr (by decide))
+
+theorem isDigit_not_ws {c : Char} (h : c.isDigit = true) : wsB c = false := by
+  have := isDigit_toNat h
+  simp only [wsB, decide_eq_false_iff_not, not_or]
+  constructor <;> rintro rfl <;> simp at this
+
+theorem showNat_headNot_ws (n : Nat) (r : List Char) : HeadNot wsB (showNat n ++ r) := by
+  obtain ⟨c, t, h, hc⟩ := showNat_head n
+  rw [h]; exact headNot_cons_append _ _ _ _ (isDigit_not_ws hc)
+
+def tupleG (a b : Nat) (tt : Bool) (shape : List Nat) : List Char :=
+  ['('] ++ joinNats (commaG a b) shape ++ (if tt then commaG a b else []) ++ [')']
+
+theorem pShape_tuple (a b : Nat) (tt : Bool) (shape : List Nat) (rest : List Char) (hne : shape ≠ [])
+    (hb : ∀ v ∈ shape, v < 2 ^ 64) : pShape (tupleG a b tt shape ++ rest) = some (shape, rest) := by
+  let items : List (List Char × Nat) := shape.map fun n => (showNat n, n)
+  have hfst : items.map Prod.fst = shape.map showNat := by simp [items, Function.comp_def]
+  have hsnd : items.map Prod.snd = shape := by simp [items, Function.comp_def]
+  let tl : List Char := (if tt then commaG a b else []) ++ ')' :: rest
+  have e : tupleG a b tt shape ++ rest = '(' :: (joinG (commaG a b) (items.map Prod.fst) ++ tl) := by
+    simp [tupleG, joinNats_eq_joinG, hfst, tl]
+  have hparen : HeadNot wsB (')' :: rest) := (headNot_cons _ _ _).mpr (by decide)
+  have htl : HeadNot Char.isDigit tl := by
+    cases tt
+    · exact (headNot_cons _ _ _).mpr (by decide)
+    · exact commaG_nondigit a b _
+  have hterm : (pWsSep [','] tl = none ∧ ')' :: rest = tl) ∨
+      (pWsSep [','] tl = some ((), ')' :: rest) ∧ pU64 (')' :: rest) = none) := by
+    cases tt
+    · exact Or.inl ⟨pWsSep_miss ',' ')' (by decide) (by decide) 0 rest, rfl⟩
+    · exact Or.inr ⟨commaG_sep a b _ hparen, pU64_nondigit _ ((headNot_cons _ _ _).mpr (by decide))⟩
+  have hitems : ∀ p ∈ items, (∀ r, HeadNot wsB (p.1 ++ r)) ∧
+      ∀ r, HeadNot Char.isDigit r → pU64 (p.1 ++ r) = some (p.2, r) := by
+    intro p hp
+    obtain ⟨n, hn, rfl⟩ := List.mem_map.mp hp
+    exact ⟨showNat_headNot_ws n, fun r hr => pU64_showNat n r (hb n hn) hr⟩
+  have hlen : items.length < (joinG (commaG a b) (items.map Prod.fst) ++ tl).length + 1 := by
+    have := joinG_length (commaG a b) (items.map Prod.fst) (by
+      rw [hfst]; intro x hx
+      obtain ⟨n, _, rfl⟩ := List.mem_map.mp hx
+      exact showNat_ne_nil n)
+    simp only [List.length_append, List.length_map] at this ⊢
+    omega
+  have key := sepList_join (pWsSep [',']) pU64 (commaG a b) tl (')' :: rest) (commaG_sep a b)
+    (commaG_nondigit a b) htl hterm items _ (by simpa [items] using hne) hlen hitems
+  rw [e]
+  unfold pShape
+  simp only [pTag_one_hit, key, hsnd]
+
+/-! ## entries -/
+
+def entryG (q : Char) (bc ac : Nat) (key value : List Char) : List Char :=
+  [q] ++ key ++ [q] ++ spc bc ++ [':'] ++ spc ac ++ value
+
+theorem entryG_append (q : Char) (bc ac : Nat) (key value rest : List Char) :
+    entryG q bc ac key value ++ rest = q :: (key ++ q :: (spc bc ++ ':' :: (spc ac ++ (value ++ rest)))) := by
+  simp [entryG]
+
+theorem pEntrySep_spc (bc ac : Nat) (v : List Char) (hv : HeadNot wsB v) :
+    pEntrySep (spc bc ++ ':' :: (spc ac ++ v)) = some ((), v) :=
+  pWsSep_spc ':' (by decide) bc ac v hv
+
+theorem quote_not_ws (q : Char) (hq : q = '\'' ∨ q = '"') : wsB q = false := by
+  rcases hq with rfl | rfl <;> decide
+
+theorem keyD_free (q : Char) (hq : q = '\'' ∨ q = '"') : ∀ c ∈ "descr".toList, c ≠ q := by
+  rcases hq with rfl | rfl <;> decide
+
+theorem keyF_free (q : Char) (hq : q = '\'' ∨ q = '"') : ∀ c ∈ "fortran_order".toList, c ≠ q := by
+  rcases hq with rfl | rfl <;> decide
+
+theorem keyS_free (q : Char) (hq : q = '\'' ∨ q = '"') : ∀ c ∈ "shape".toList, c ≠ q := by
+  rcases hq with rfl | rfl <;> decide
+
+theorem gEntry_descr (q : Char) (hq : q = '\'' ∨ q = '"') (bc ac : Nat) (c : Char) (e : Endian) (t : NpyTy)
+    (hc : EndianOf c e) (rest : List Char) :
+    pEntry (entryG q bc ac "descr".toList ([q] ++ [c] ++ t.name ++ [q]) ++ rest) = some (.descr e t, rest) := by
+  have e1 : [q] ++ [c] ++ t.name ++ [q] ++ rest = q :: (c :: t.name ++ q :: rest) := by simp
+  rw [entryG_append, e1]
+  unfold pEntry pDescrEntry
+  rw [pTargetString_hit q hq _ _ (by decide) (keyD_free q hq)]
+  simp only [pEntrySep_spc bc ac _ ((headNot_cons _ _ _).mpr (quote_not_ws q hq)), pDescrValue_hit q hq c e t hc rest]
+
+theorem gEntry_fortran (q : Char) (hq : q = '\'' ∨ q = '"') (bc ac : Nat) (b : Bool) (rest : List Char) :
+    pEntry (entryG q bc ac "fortran_order".toList (if b then "True".toList else "False".toList) ++ rest)
+      = some (.fortran b, rest) := by
+  rw [entryG_append]
+  unfold pEntry pDescrEntry pFortranEntry
+  rw [pTargetString_miss q hq _ "descr".toList _ (by decide) (keyF_free q hq) (by decide),
+    pTargetString_hit q hq _ _ (by decide) (keyF_free q hq)]
+  have hv : HeadNot wsB ((if b then "True".toList else "False".toList) ++ rest) := by
+    cases b <;> exact (headNot_cons _ _ _).mpr (by decide)
+  simp only [pEntrySep_spc bc ac _ hv, pBool_ite]
+
+theorem gEntry_shape (q : Char) (hq : q = '\'' ∨ q = '"') (bc ac a b : Nat) (tt : Bool) (shape : List Nat)
+    (rest : List Char) (hne : shape ≠ []) (hb : ∀ v ∈ shape, v < 2 ^ 64) :
+    pEntry (entryG q bc ac "shape".toList (tupleG a b tt shape) ++ rest) = some (.shape shape, rest) := by
+  rw [entryG_append]
+  unfold pEntry pDescrEntry pFortranEntry pShapeEntry
+  rw [pTargetString_miss q hq _ "descr".toList _ (by decide) (keyS_free q hq) (by decide),
+    pTargetString_miss q hq _ "fortran_order".toList _ (by decide) (keyS_free q hq) (by decide),
+    pTargetString_hit q hq _ _ (by decide) (keyS_free q hq)]
+  have hv : HeadNot wsB (tupleG a b tt shape ++ rest) := by
+    simp only [tupleG, List.append_assoc, List.cons_append, List.nil_append]
+    exact (headNot_cons _ _ _).mpr (by decide)
+  simp only [pEntrySep_spc bc ac _ hv, pShape_tuple a b tt shape rest hne hb]
+
+theorem gEntry_brace (rest : List Char) : pEntry ('}' :: rest) = none := by
+  unfold pEntry pDescrEntry pFortranEntry pShapeEntry
+  simp only [pTargetString_nostring _ '}' rest (by decide) (by decide)]
+
+/-! ## the dictionary -/
+
+def renderG (a b : Nat) (trailing : Bool) (lead trail : Nat) (es : List (List Char)) : List Char :=
+  ['{'] ++ spc lead ++ joinG (commaG a b) es ++ (if trailing then commaG a b else []) ++ spc trail ++ ['}']
+
+theorem pDict_render (a b : Nat) (trailing : Bool) (lead trail : Nat) (g : List Char → NpyEntry)
+    (es : List (List Char)) (rest : List Char) (hne : es ≠ [])
+    (H : ∀ x ∈ es, (∃ c t, x = c :: t ∧ wsB c = false) ∧ ∀ r, pEntry (x ++ r) = some (g x, r)) :
+    pDict (renderG a b trailing lead trail es ++ rest) = some (es.map g, rest) := by
+  let items : List (List Char × NpyEntry) := es.map fun x => (x, g x)
+  have hfst : items.map Prod.fst = es := by simp [items, Function.comp_def]
+  have hsnd : items.map Prod.snd = es.map g := by simp [items, Function.comp_def]
+  have hbrace : HeadNot wsB ('}' :: rest) := (headNot_cons _ _ _).mpr (by decide)
+  have hitems : ∀ p ∈ items, (∀ r, HeadNot wsB (p.1 ++ r)) ∧
+      ∀ r, HeadNot Char.isDigit r → pEntry (p.1 ++ r) = some (p.2, r) := by
+    intro p hp
+    obtain ⟨x, hx, rfl⟩ := List.mem_map.mp hp
+    obtain ⟨⟨c, t, rfl, hc⟩, h2⟩ := H x hx
+    exact ⟨fun r => headNot_cons_append _ _ _ _ hc, fun r _ => h2 r⟩
+  have hine : items ≠ [] := by simpa [items] using hne
+  have hhead : ∀ tl, HeadNot wsB (joinG (commaG a b) (items.map Prod.fst) ++ tl) := by
+    intro tl
+    cases hi : items with
+    | nil => exact absurd hi hine
+    | cons p more =>
+      obtain ⟨r, hr⟩ := joinG_head (commaG a b) p.1 (more.map Prod.fst) tl
+      rw [List.map_cons, hr]
+      exact (hitems p (by simp [hi])).1 r
+  have hlen : ∀ tl, items.length < (joinG (commaG a b) (items.map Prod.fst) ++ tl).length + 1 := by
+    intro tl
+    have := joinG_length (commaG a b) (items.map Prod.fst) (by
+      rw [hfst]; intro x hx
+      obtain ⟨⟨c, t, rfl, _⟩, _⟩ := H x hx
+      simp)
+    simp only [List.length_append, List.length_map] at this ⊢
+    omega
+  cases trailing
+  · -- no trailing comma: the separator fails on `sp trail ++ "}"` and nothing of it is consumed
+    let tl : List Char := spc trail ++ '}' :: rest
+    have e : renderG a b false lead trail es ++ rest
+        = '{' :: (spc lead ++ (joinG (commaG a b) (items.map Prod.fst) ++ tl)) := by
+      simp [renderG, hfst, tl]
+    have htl : HeadNot Char.isDigit tl :=
+      headNot_spc_append _ _ _ (by decide) ((headNot_cons _ _ _).mpr (by decide))
+    have key := sepList_join (pWsSep [',']) pEntry (commaG a b) tl tl (commaG_sep a b)
+      (commaG_nondigit a b) htl (Or.inl ⟨pWsSep_miss ',' '}' (by decide) (by decide) trail rest, rfl⟩)
+      items _ hine (hlen tl) hitems
+    rw [e]
+    unfold pDict
+    simp only [pTag_one_hit, pSpace0_spc lead _ (hhead tl), key, hsnd]
+    simp only [tl, pSpace0_spc trail _ hbrace, pTag_one_hit]
+  · -- trailing comma: the separator also eats the spaces before `}`; `pEntry` fails on `}`
+    let tl : List Char := commaG a b ++ (spc trail ++ '}' :: rest)
+    have e : renderG a b true lead trail es ++ rest
+        = '{' :: (spc lead ++ (joinG (commaG a b) (items.map Prod.fst) ++ tl)) := by
+      simp [renderG, hfst, tl]
+    have hs : pWsSep [','] tl = some ((), '}' :: rest) := by
+      simp only [tl, commaG_append]
+      exact pWsSep_spc2 ',' (by decide) a b trail _ hbrace
+    have key := sepList_join (pWsSep [',']) pEntry (commaG a b) tl ('}' :: rest) (commaG_sep a b)
+      (commaG_nondigit a b) (commaG_nondigit a b _) (Or.inr ⟨hs, gEntry_brace rest⟩)
+      items _ hine (hlen tl) hitems
+    rw [e]
+    unfold pDict
+    simp only [pTag_one_hit, pSpace0_spc lead _ (hhead tl), key, hsnd]
+    simp only [pSpace0_id _ hbrace, pTag_one_hit]
+
+/-! ## all orders -/
+
+theorem perm3 {α} {a b c : α} {l : List α} (h : l.Perm [a, b, c]) :
+    l = [a, b, c] ∨ l = [b, a, c] ∨ l = [c, b, a] ∨ l = [b, c, a] ∨ l = [c, a, b] ∨ l = [a, c, b] := by
+  have := List.mem_permutations.mpr h
+  simpa [List.permutations, List.permutationsAux, List.permutationsAux.rec, List.permutationsAux2] using this
+
+theorem parse_of_pDict (inp rest : List Char) (es : List NpyEntry) (d : NpyDict) (h : pDict inp = some (es, rest))
+    (hes : es.Perm [.descr d.endian d.ty, .fortran d.fortran, .shape d.shape]) : parseNpyDict inp = some d := by
+  unfold parseNpyDict
+  rw [h]
+  rcases perm3 hes with rfl | rfl | rfl | rfl | rfl | rfl <;> rfl
+
+/-- what `pEntry` reads from a complete entry string. -/
+def entryVal (x : List Char) : NpyEntry :=
+  match pEntry x with
+  | some (e, _) => e
+  | none => .fortran false
+
+theorem entryVal_of (x : List Char) (e : NpyEntry) (h : ∀ r, pEntry (x ++ r) = some (e, r)) : entryVal x = e := by
+  have := h []
+  rw [List.append_nil] at this
+  simp [entryVal, this]
+
+def entriesG (q : Char) (bc ac a b : Nat) (tt : Bool) (c : Char) (d : NpyDict) : List (List Char) :=
+  [entryG q bc ac "descr".toList ([q] ++ [c] ++ d.ty.name ++ [q]),
+   entryG q bc ac "fortran_order".toList (if d.fortran then "True".toList else "False".toList),
+   entryG q bc ac "shape".toList (tupleG a b tt d.shape)]
+
+theorem entryG_head (q : Char) (hq : q = '\'' ∨ q = '"') (bc ac : Nat) (key value : List Char) :
+    ∃ c t, entryG q bc ac key value = c :: t ∧ wsB c = false :=
+  ⟨q, _, by simp [entryG]; rfl, quote_not_ws q hq⟩
+
+/-- every spelling, every order. -/
+theorem parse_renderG (q : Char) (hq : q = '\'' ∨ q = '"') (bc ac a b : Nat) (trailing tt : Bool) (lead trail : Nat)
+    (c : Char) (d : NpyDict) (hc : EndianOf c d.endian) (es : List (List Char)) (rest : List Char)
+    (hperm : es.Perm (entriesG q bc ac a b tt c d)) (hne : d.shape ≠ []) (hb : ∀ v ∈ d.shape, v < 2 ^ 64) :
+    parseNpyDict (renderG a b trailing lead trail es ++ rest) = some d := by
+  have hD := gEntry_descr q hq bc ac c d.endian d.ty hc
+  have hF := gEntry_fortran q hq bc ac d.fortran
+  have hS := fun rest => gEntry_shape q hq bc ac a b tt d.shape rest hne hb
+  have H0 : ∀ x ∈ entriesG q bc ac a b tt c d,
+      (∃ c t, x = c :: t ∧ wsB c = false) ∧ ∀ r, pEntry (x ++ r) = some (entryVal x, r) := by
+    intro x hx
+    simp only [entriesG, List.mem_cons, List.not_mem_nil, or_false] at hx
+    rcases hx with rfl | rfl | rfl
+    · exact ⟨entryG_head q hq _ _ _ _, by rw [entryVal_of _ _ hD]; exact hD⟩
+    · exact ⟨entryG_head q hq _ _ _ _, by rw [entryVal_of _ _ hF]; exact hF⟩
+    · exact ⟨entryG_head q hq _ _ _ _, by rw [entryVal_of _ _ hS]; exact hS⟩
+  have hes : es ≠ [] := by
+    intro h; rw [h] at hperm; simpa [entriesG] using hperm.length_eq
+  have hp := pDict_render a b trailing lead trail entryVal es rest hes (fun x hx => H0 x (hperm.mem_iff.mp hx))
+  refine parse_of_pDict _ rest _ d hp ?_
+  have := hperm.map entryVal
+  unfold entriesG at this
+  rw [List.map_cons, List.map_cons, List.map_cons, List.map_nil,
+    entryVal_of _ _ hD, entryVal_of _ _ hF, entryVal_of _ _ hS] at this
+  exact this
 
 end Sfs
